@@ -73,7 +73,11 @@ fn run_chain(line: &str) -> Vec<String> {
 }
 
 fn main() {
-    panic::set_hook(Box::new(|_| {}));
+    panic::set_hook(Box::new(|info| {
+        if std::env::var("VERIF_DEBUG").is_ok() {
+            eprintln!("{info}");
+        }
+    }));
     let stdin = io::stdin();
     let out = io::stdout();
     let mut out = io::BufWriter::new(out.lock());
